@@ -7,8 +7,12 @@ For every query function named in a spec (tools/sqlgen/<spec>.json) it
   2. asks the Go toolchain (a throw-away program compiled inside the module through
      `go run -overlay`, nothing is written to the repo) what database/sql binds for each
      expression: the driver value's type, and for constants the value itself;
-  3. parses the SELECT (FROM, INNER JOINs on a unique key, WHERE with comparisons, AND/OR/NOT,
-     BETWEEN, IS [NOT] NULL, IN, literals, placeholders) and types it with SQLite's rules:
+  3. parses the statement — a SELECT, or a DELETE/UPDATE whose WHERE is `id IN (SELECT <t>.id FROM <t> ...)`
+     (then the inner SELECT decides which rows of <t> are hit) — with FROM, INNER JOINs on a unique key,
+     LEFT JOINs, [NOT] EXISTS (SELECT ... FROM t WHERE ...), WHERE with comparisons, AND/OR/NOT, BETWEEN,
+     IS [NOT] NULL, IN, literals, placeholders; ORDER BY / LIMIT only where the spec declares what the
+     caller does with them ("limit": "batch" = the caller repeats the statement until it hits no row,
+     "pick-one" = the caller takes one row or reports that there is none) — and types it with SQLite's rules:
      column affinity from the declared type in init.sql, affinity conversion of the other
      operand, comparison by storage class (NULL < INTEGER < TEXT < BLOB);
   4. emits one Gallina definition per query over the row records of <Group>/Rows.v using the
@@ -142,11 +146,15 @@ def go_imports(src):
     return imps
 
 
-def query_call(body, fn):
+def query_call(body, fn, which=None):
     calls = [m for m in re.finditer(r'\btx\.(Query|QueryRow|Exec)\s*\(', body)]
-    if len(calls) != 1:
-        raise Unsupported("%s: expected exactly one tx.Query/QueryRow call, found %d" % (fn, len(calls)))
-    p0 = calls[0].end() - 1
+    if which is None:
+        if len(calls) != 1:
+            raise Unsupported("%s: expected exactly one tx.Query/QueryRow call, found %d" % (fn, len(calls)))
+        which = 0
+    elif which >= len(calls):
+        raise Unsupported("%s: expected at least %d tx.Query/QueryRow/Exec calls, found %d" % (fn, which + 1, len(calls)))
+    p0 = calls[which].end() - 1
     p1 = match_close(body, p0, '(', ')')
     args = split_top(body[p0 + 1:p1])
     if not args:
@@ -166,9 +174,13 @@ def query_call(body, fn):
     return sql, args[1:]
 
 
-def probe_go(items, consts, imports):
+def probe_go(items, consts, imports, inpkg=None):
     """items: [(key, param decls [(name,type)], expr)], consts: [(key, expr)].
-    Returns {key: dict(gotype, kind, drv, val, err)} computed by the real toolchain."""
+    Returns {key: dict(gotype, kind, drv, val, err)} computed by the real toolchain.
+    inpkg (a package directory of the repository, e.g. persist/sqlite): evaluate the expressions
+    inside that package, for bound expressions that use its unexported names."""
+    if inpkg:
+        return probe_go_inpkg(items, consts, imports, inpkg)
     used = set()
     text = " ".join(e for _, _, e in items) + " " + " ".join(t for _, ps, _ in items for _, t in ps) \
         + " " + " ".join(e for _, e in consts)
@@ -203,6 +215,73 @@ def probe_go(items, consts, imports):
         open(mainf, "w").write("\n".join(lines) + "\n")
         ov = os.path.join(td, "overlay.json")
         json.dump({"Replace": {os.path.join(REPO, "internal", "verifsqlgenprobe", "main.go"): mainf}}, open(ov, "w"))
+        env = dict(os.environ, GOPROXY="off", GOSUMDB="off", GOTOOLCHAIN="local", GOFLAGS="")
+        p = subprocess.run(["go", "run", "-overlay", ov, "./internal/verifsqlgenprobe"], cwd=REPO, env=env,
+                           stdout=subprocess.PIPE, stderr=subprocess.PIPE, text=True, timeout=900)
+        if p.returncode != 0:
+            raise Unsupported("the Go toolchain rejects the bound expressions:\n%s\n--- program:\n%s" % (p.stderr[-3000:], "\n".join(lines)))
+    res = {}
+    for line in p.stdout.splitlines():
+        key, gotype, kind, drv, val, err = line.split("\t")
+        res[key] = dict(gotype=gotype, kind=kind, drv=drv, val=json.loads(val), err=json.loads(err))
+    return res
+
+
+def probe_go_inpkg(items, consts, imports, inpkg):
+    """the same probe, compiled as an extra (overlay-only) file of the package that holds the queries,
+    called from a throw-away main package"""
+    pkgdir = os.path.join(REPO, inpkg)
+    pkgname = None
+    for f in sorted(os.listdir(pkgdir)):
+        if f.endswith(".go") and not f.endswith("_test.go"):
+            m = re.search(r'^package\s+(\w+)', open(os.path.join(pkgdir, f)).read(), flags=re.M)
+            if m:
+                pkgname = m.group(1)
+                break
+    if not pkgname:
+        raise Unsupported("no Go package in %s" % inpkg)
+    m = re.search(r'^module\s+(\S+)', open(os.path.join(REPO, "go.mod")).read(), flags=re.M)
+    if not m:
+        raise Unsupported("go.mod without a module line")
+    modpath = m.group(1)
+    text = " ".join(e for _, _, e in items) + " " + " ".join(t for _, ps, _ in items for _, t in ps) \
+        + " " + " ".join(e for _, e in consts)
+    lines = ['package %s' % pkgname, '', 'import (', '\tverifdriver "database/sql/driver"', '\tveriffmt "fmt"',
+             '\tverifreflect "reflect"']
+    for name, (alias, path) in sorted(imports.items()):
+        if re.search(r'\b%s\.' % re.escape(name), text):
+            lines.append('\t%s"%s"' % ((alias + ' ') if alias else '', path))
+    lines += [')', '',
+              'func verifSqlgenEmit(key string, v any) {',
+              '\tt := verifreflect.TypeOf(v)',
+              '\tcv, err := verifdriver.DefaultParameterConverter.ConvertValue(v)',
+              '\tes := ""',
+              '\tif err != nil { es = err.Error() }',
+              '\tveriffmt.Printf("%s\\t%s\\t%s\\t%T\\t%q\\t%q\\n", key, t.String(), t.Kind().String(), cv, veriffmt.Sprint(cv), es)',
+              '}', '']
+    for n, (key, params, expr) in enumerate(items):
+        lines.append('func verifSqlgenProbe%d() {' % n)
+        for pn, pt in params:
+            lines.append('\tvar %s %s' % (pn, pt))
+            lines.append('\t_ = %s' % pn)
+        lines.append('\tverifSqlgenEmit(%s, %s)' % (json.dumps(key), expr))
+        lines.append('}')
+    lines.append('// VerifSqlgenProbe exists only in the translator\'s overlay build')
+    lines.append('func VerifSqlgenProbe() {')
+    for n in range(len(items)):
+        lines.append('\tverifSqlgenProbe%d()' % n)
+    for key, expr in consts:
+        lines.append('\tverifSqlgenEmit(%s, %s)' % (json.dumps(key), expr))
+    lines.append('}')
+    mainsrc = 'package main\n\nimport probe "%s/%s"\n\nfunc main() { probe.VerifSqlgenProbe() }\n' % (modpath, inpkg)
+    with tempfile.TemporaryDirectory() as td:
+        pf = os.path.join(td, "probe.go")
+        open(pf, "w").write("\n".join(lines) + "\n")
+        mainf = os.path.join(td, "main.go")
+        open(mainf, "w").write(mainsrc)
+        ov = os.path.join(td, "overlay.json")
+        json.dump({"Replace": {os.path.join(pkgdir, "verif_sqlgen_probe.go"): pf,
+                               os.path.join(REPO, "internal", "verifsqlgenprobe", "main.go"): mainf}}, open(ov, "w"))
         env = dict(os.environ, GOPROXY="off", GOSUMDB="off", GOTOOLCHAIN="local", GOFLAGS="")
         p = subprocess.run(["go", "run", "-overlay", ov, "./internal/verifsqlgenprobe"], cwd=REPO, env=env,
                            stdout=subprocess.PIPE, stderr=subprocess.PIPE, text=True, timeout=900)
@@ -261,7 +340,8 @@ TOK = re.compile(r"""\s*(?:
 
 KEYWORDS = {"SELECT", "FROM", "WHERE", "AND", "OR", "NOT", "IS", "NULL", "BETWEEN", "IN", "INNER", "LEFT", "CROSS", "JOIN",
             "ON", "AS", "TRUE", "FALSE", "ORDER", "BY", "LIMIT", "OFFSET", "GROUP", "HAVING", "ASC", "DESC", "OUTER", "LIKE",
-            "CASE", "EXISTS", "UNION", "DISTINCT"}
+            "CASE", "EXISTS", "UNION", "DISTINCT", "DELETE", "UPDATE", "SET", "RETURNING", "INDEXED", "RIGHT", "FULL",
+            "NATURAL", "USING", "EXCEPT", "INTERSECT"}
 
 
 def tokenize(sql):
@@ -306,9 +386,63 @@ class Parser:
         return tk[0] == kind and (val is None or tk[1] == val)
 
     # SELECT <anything without FROM at depth 0> FROM t [a] {INNER JOIN t a ON (x = y)} [WHERE e] [;]
-    def select(self):
+    # statement :=  SELECT ...
+    #            |  DELETE FROM t WHERE id IN ( SELECT ... ) [RETURNING ...]
+    #            |  UPDATE t SET col = v {, col = v} WHERE id IN ( SELECT ... ) [RETURNING ...]
+    def statement(self):
+        if self.at("kw", "SELECT"):
+            sel = self.select_core(sub=False)
+            st = dict(kind="select", select=sel)
+        elif self.at("kw", "DELETE") or self.at("kw", "UPDATE"):
+            kind = self.eat()[1].lower()
+            if kind == "delete":
+                self.eat("kw", "FROM")
+            target = self.table_ref()
+            sets = []
+            if kind == "update":
+                self.eat("kw", "SET")
+                while True:
+                    col = self.eat("id")[1]
+                    self.eat("op", "=")
+                    sets.append((col, self.primary()))
+                    if self.at("op", ","):
+                        self.eat()
+                        continue
+                    break
+            if not self.at("kw", "WHERE"):
+                raise Unsupported("SQL: %s without WHERE hits every row of %s" % (kind.upper(), target[0]))
+            self.eat("kw", "WHERE")
+            key = self.primary()
+            if not (self.at("kw", "IN") and self.peek(1) == ("op", "(") and self.peek(2) == ("kw", "SELECT")):
+                raise Unsupported("SQL: the WHERE of the %s is not `id IN (SELECT ...)`" % kind.upper())
+            self.eat("kw", "IN")
+            self.eat("op", "(")
+            sel = self.select_core(sub=True)
+            self.eat("op", ")")
+            if self.at("kw", "AND") or self.at("kw", "OR"):
+                raise Unsupported("SQL: the WHERE of the %s has more than `id IN (SELECT ...)`" % kind.upper())
+            if self.at("kw", "RETURNING"):
+                self.eat()
+                while not (self.at("eof") or self.at("op", ";")):
+                    if self.eat()[0] == "par":
+                        raise Unsupported("SQL: placeholder in the RETURNING clause")
+            st = dict(kind=kind, target=target, key=key, sets=sets, select=sel)
+        else:
+            raise Unsupported("SQL: statement starts with %r" % (self.peek(),))
+        if self.at("op", ";"):
+            self.eat()
+        if not self.at("eof"):
+            raise Unsupported("SQL: trailing clause %r is outside the supported fragment (it could change which rows are selected)" % (self.peek(),))
+        return st
+
+    def select_core(self, sub):
+        """SELECT cols FROM t [a] {[INNER] JOIN t a ON e | LEFT [OUTER] JOIN t a ON e} [WHERE e] [ORDER BY ...] [LIMIT n];
+        a sub-select ends at the closing parenthesis.  ORDER BY / LIMIT are returned, never dropped here."""
         self.eat("kw", "SELECT")
+        if self.at("kw", "DISTINCT"):
+            raise Unsupported("SQL: SELECT DISTINCT is outside the supported fragment")
         depth = 0
+        cols = []
         while not (depth == 0 and self.at("kw", "FROM")):
             tk = self.eat()
             if tk[0] == "eof":
@@ -319,28 +453,56 @@ class Parser:
                 depth += 1
             elif tk == ("op", ")"):
                 depth -= 1
+                if depth < 0:
+                    raise Unsupported("SQL: SELECT without FROM")
+            cols.append(tk)
         self.eat("kw", "FROM")
         root = self.table_ref()
         joins = []
-        while self.at("kw", "INNER") or self.at("kw", "JOIN") or self.at("kw", "LEFT") or self.at("kw", "CROSS"):
-            if self.at("kw", "LEFT") or self.at("kw", "CROSS"):
-                raise Unsupported("SQL: %s JOIN is outside the supported fragment" % self.peek()[1])
-            if self.at("kw", "INNER"):
+        while self.peek()[0] == "kw" and self.peek()[1] in ("INNER", "JOIN", "LEFT", "CROSS", "RIGHT", "FULL", "NATURAL"):
+            kind = "inner"
+            if self.at("kw", "LEFT"):
                 self.eat()
+                if self.at("kw", "OUTER"):
+                    self.eat()
+                kind = "left"
+            elif self.at("kw", "INNER"):
+                self.eat()
+            elif not self.at("kw", "JOIN"):
+                raise Unsupported("SQL: %s JOIN is outside the supported fragment" % self.peek()[1])
             self.eat("kw", "JOIN")
             tr = self.table_ref()
             self.eat("kw", "ON")
             on = self.expr()
-            joins.append((tr, on))
+            joins.append((kind, tr, on))
+        if self.at("op", ","):
+            raise Unsupported("SQL: comma join is outside the supported fragment")
         where = None
         if self.at("kw", "WHERE"):
             self.eat()
             where = self.expr()
-        if self.at("op", ";"):
+        order_by, limit = False, None
+        if self.at("kw", "ORDER"):
             self.eat()
-        if not self.at("eof"):
-            raise Unsupported("SQL: trailing clause %r is outside the supported fragment (it could change which rows are selected)" % (self.peek(),))
-        return root, joins, where
+            self.eat("kw", "BY")
+            order_by = True
+            depth = 0
+            while not (self.at("eof") or (depth == 0 and (self.at("kw", "LIMIT") or self.at("op", ";") or self.at("op", ")")))):
+                tk = self.eat()
+                if tk[0] == "par":
+                    raise Unsupported("SQL: placeholder in ORDER BY")
+                if tk == ("op", "("):
+                    depth += 1
+                elif tk == ("op", ")"):
+                    depth -= 1
+        if self.at("kw", "LIMIT"):
+            self.eat()
+            limit = self.primary()
+            if self.at("kw", "OFFSET") or self.at("op", ","):
+                raise Unsupported("SQL: LIMIT with an offset is outside the supported fragment")
+        if sub and not self.at("op", ")"):
+            raise Unsupported("SQL: trailing clause %r in a sub-select is outside the supported fragment" % (self.peek(),))
+        return dict(cols=cols, root=root, joins=joins, where=where, order_by=order_by, limit=limit)
 
     def table_ref(self):
         name = self.eat("id")[1]
@@ -350,6 +512,15 @@ class Parser:
             alias = self.eat("id")[1]
         elif self.at("id"):
             alias = self.eat("id")[1]
+        # index hints choose a query plan, never the rows (SQLite refuses the statement when the hinted
+        # index cannot serve it)
+        if self.at("kw", "INDEXED"):
+            self.eat()
+            self.eat("kw", "BY")
+            self.eat("id")
+        elif self.at("kw", "NOT") and self.peek(1) == ("kw", "INDEXED"):
+            self.eat()
+            self.eat()
         return name, alias
 
     def expr(self):
@@ -370,6 +541,12 @@ class Parser:
         if self.at("kw", "NOT"):
             self.eat()
             return ("not", self.not_())
+        if self.at("kw", "EXISTS"):
+            self.eat()
+            self.eat("op", "(")
+            sel = self.select_core(sub=True)
+            self.eat("op", ")")
+            return ("exists", sel)
         return self.cmp()
 
     def cmp(self):
@@ -463,23 +640,35 @@ def coq_string(s):
     return '"%s"%%string' % s.replace('"', '""')
 
 
+SIGNED_KINDS = ("int", "int64", "int32", "int16", "int8")
+
+
 class Emitter:
     """Types an expression with SQLite's comparison rules and renders Gallina."""
 
     def __init__(self, spec, schema, fn, root, joins, args, arginfo, params):
         self.spec, self.schema, self.fn = spec, schema, fn
-        self.scopes = {}          # alias -> (table, coq row variable)
+        self.scopes = {}          # alias -> (table, coq row variable, optional: the NULL row of a LEFT JOIN)
         self.args, self.arginfo, self.goparams = args, arginfo, params
         self.cols_used = set()    # (table, column)
         self.sym = []             # symbolic parameters of the definition: (coq name, go expr, kind)
         self.root = root
+        self.tables = []          # whole tables the definition ranges over (LEFT JOIN / EXISTS): table names
+        self.nexists = 0
+
+    def table_param(self, table):
+        if table not in self.spec["tables"]:
+            raise Unsupported("%s: table %s is not modelled" % (self.fn, table))
+        if table not in self.tables:
+            self.tables.append(table)
+        return "T_%s" % table
 
     def table_of(self, alias, col):
         if alias is not None:
             if alias not in self.scopes:
                 raise Unsupported("%s: unknown table alias %s" % (self.fn, alias))
             return alias
-        hits = [a for a, (t, _) in self.scopes.items() if col in self.schema[t]]
+        hits = [a for a, sc in self.scopes.items() if col in self.schema[sc[0]]]
         if len(hits) != 1:
             raise Unsupported("%s: column %s is ambiguous or unknown" % (self.fn, col))
         return hits[0]
@@ -489,11 +678,13 @@ class Emitter:
         k = e[0]
         if k == "col":
             a = self.table_of(e[1], e[2])
-            table, var = self.scopes[a]
+            table, var, optional = self.scopes[a]
             if e[2] not in self.schema[table]:
                 raise Unsupported("%s: table %s has no column %s" % (self.fn, table, e[2]))
             c = self.schema[table][e[2]]
             self.cols_used.add((table, e[2]))
+            if optional:
+                return dict(kind="col", aff=c["aff"], coq="(sql_ocol col_%s_%s %s)" % (table, e[2], var), table=table, col=e[2])
             return dict(kind="col", aff=c["aff"], coq="(col_%s_%s %s)" % (table, e[2], var), table=table, col=e[2])
         if k == "int":
             return dict(kind="int", aff=None, val=e[1], coq="(Some (%d)%%Z)" % e[1])
@@ -524,6 +715,8 @@ class Emitter:
             name = re.sub(r'\W+', '_', expr).strip('_')
             if (name, expr, info["kind"]) not in self.sym:
                 self.sym.append((name, expr, info["kind"]))
+            if info["kind"] in SIGNED_KINDS:   # a signed Go integer: the definition takes it as Z
+                return dict(kind="symint", aff=None, coq="(Some %s)" % name, go=expr)
             return dict(kind="symint", aff=None, coq="(Some (Z.of_N %s))" % name, go=expr)
         raise Unsupported("%s: expression %r used as an operand" % (self.fn, e))
 
@@ -603,7 +796,34 @@ class Emitter:
             raise Unsupported("%s: %s operand used as a condition" % (self.fn, o["aff"] or o["kind"]))
         if k == "null":
             return "(@None bool)"
+        if k == "exists":
+            return self.exists(e[1])
         raise Unsupported("%s: %r used as a condition" % (self.fn, e))
+
+    def exists(self, sel):
+        """EXISTS (SELECT ... FROM t [a] WHERE e): some row of t makes e true; never NULL"""
+        if sel["joins"]:
+            raise Unsupported("%s: JOIN inside EXISTS is outside the supported fragment" % self.fn)
+        if sel["limit"] is not None and not (sel["limit"][0] == "int" and sel["limit"][1] >= 1):
+            raise Unsupported("%s: LIMIT inside EXISTS must be a positive literal" % self.fn)
+        table, alias = sel["root"]
+        tp = self.table_param(table)
+        if alias in self.scopes:
+            raise Unsupported("%s: alias %s of the EXISTS sub-select shadows an outer table" % (self.fn, alias))
+        self.nexists += 1
+        var = "x%d" % self.nexists
+        self.scopes[alias] = (table, var, False)
+        try:
+            body = self.cond(sel["where"]) if sel["where"] is not None else "(Some true)"
+        finally:
+            del self.scopes[alias]
+        return "(sql_exists (fun %s => %s) %s)" % (var, body, tp)
+
+
+def sql_comment(sql):
+    """the statement on one line, safe inside a Coq comment"""
+    t = " ".join(re.sub(r'--[^\n]*', '', sql).split())
+    return t.replace("(*", "( *").replace("*)", "* )")
 
 
 def translate(spec, schema, gosrc, imports, q, probe_results):
@@ -611,23 +831,89 @@ def translate(spec, schema, gosrc, imports, q, probe_results):
     params, body = q["_params"], q["_body"]
     sql, args = q["_sql"], q["_args"]
     p = Parser(tokenize(sql))
-    root, joins, where = p.select()
+    st = p.statement()
+    sel = st["select"]
+    root, joins, where = sel["root"], sel["joins"], sel["where"]
     if p.nparams != len(args):
         raise Unsupported("%s: the SQL has %d placeholder(s) but %d argument(s) are bound — database/sql rejects this call" % (fn, p.nparams, len(args)))
     tabs = spec["tables"]
     if root[0] != q["table"]:
         raise Unsupported("%s: selects FROM %s, expected %s" % (fn, root[0], q["table"]))
+    want = q.get("statement", "select")
+    if st["kind"] != want:
+        raise Unsupported("%s: the statement is %s %s, the model expects %s" % (fn, "an" if st["kind"] == "update" else "a", st["kind"].upper(), want.upper()))
     arginfo = [probe_results["%s#%d" % (fn, i)] for i in range(len(args))]
     em = Emitter(spec, schema, fn, root, joins, args, arginfo, params)
-    em.scopes[root[1]] = (root[0], "c")
+    notes = []
+    if st["kind"] in ("delete", "update"):
+        # DELETE/UPDATE t ... WHERE id IN (SELECT a.id FROM t a ...): the rows of t hit are those for which the
+        # inner SELECT yields a row, provided both ids are t's primary key
+        tt = st["target"]
+        pk = [c for c, d in schema[tt[0]].items() if d["pk"]]
+        key = st["key"]
+        if tt[0] != root[0]:
+            raise Unsupported("%s: %s on %s, but the sub-select ranges over %s" % (fn, st["kind"].upper(), tt[0], root[0]))
+        if not (key[0] == "col" and key[1] in (None, tt[1]) and [key[2]] == pk):
+            raise Unsupported("%s: the %s does not test the primary key of %s" % (fn, st["kind"].upper(), tt[0]))
+        cols = sel["cols"]
+        if len(cols) == 3 and cols[0][0] == "id" and cols[1] == ("op", ".") and cols[2][0] == "id":
+            okc = cols[0][1] == root[1] and [cols[2][1]] == pk
+        else:
+            okc = len(cols) == 1 and cols[0][0] == "id" and [cols[0][1]] == pk and \
+                not any(cols[0][1] in schema[jt[0]] for _, jt, _ in joins)
+        if not okc:
+            raise Unsupported("%s: the sub-select does not return the primary key of %s" % (fn, tt[0]))
+        for col, v in st["sets"]:
+            if col not in schema[tt[0]]:
+                raise Unsupported("%s: table %s has no column %s" % (fn, tt[0], col))
+            if v[0] == "param":
+                em.operand(v)   # must be bindable
+        if st["kind"] == "update":
+            want_sets = q.get("sets")
+            got_sets = sorted("%s=%s" % (c, "NULL" if v[0] == "null" else "?" if v[0] == "param" else str(v[1])) for c, v in st["sets"])
+            if want_sets is None or sorted(want_sets) != got_sets:
+                raise Unsupported("%s: the UPDATE sets %s, the model expects %s" % (fn, got_sets, want_sets))
+    if sel["order_by"] or sel["limit"] is not None:
+        mode = q.get("limit")
+        if mode not in ("batch", "pick-one"):
+            raise Unsupported("SQL: trailing clause ORDER BY/LIMIT is outside the supported fragment (it could change which rows are selected)")
+        if sel["limit"] is None:
+            notes.append("ORDER BY: the order of the result is not part of the selection")
+        else:
+            lim = em.operand(sel["limit"])
+            if lim["kind"] != "int" or lim["val"] < 1:
+                raise Unsupported("%s: LIMIT must be a positive constant (found %s)" % (fn, lim.get("go") or lim.get("val") or lim["kind"]))
+            if mode == "batch":
+                notes.append("LIMIT %d: batch size; the caller repeats the statement until it hits no row, so the rows hit in total are the rows selected without the LIMIT" % lim["val"])
+            else:
+                notes.append("%sLIMIT %d: the caller takes the first row, or reports that no row is selected" % ("ORDER BY, " if sel["order_by"] else "", lim["val"]))
+    elif q.get("limit") == "batch":
+        notes.append("no LIMIT: one execution hits every selected row")
+    em.scopes[root[1]] = (root[0], "c", False)
     wrappers = []
-    for (jt, ja), on in joins:
+    lefts = []
+    for kind, (jt, ja), on in joins:
+        if ja in em.scopes:
+            raise Unsupported("%s: duplicate table alias %s" % (fn, ja))
+        if kind == "left":
+            # LEFT JOIN t a ON e: per row so far, the rows of t for which e is true, or one all-NULL row
+            tp = em.table_param(jt)
+            em.scopes[ja] = (jt, "t", False)
+            on_coq = em.cond(on)
+            var = "j%d" % (len(lefts) + 1)
+            em.scopes[ja] = (jt, var, True)
+            lefts.append((var, on_coq, tp))
+            continue
+        if lefts:
+            raise Unsupported("%s: INNER JOIN after a LEFT JOIN is outside the supported fragment" % fn)
         key = "%s>%s" % (root[0], jt)
         if key not in spec["joins"]:
             raise Unsupported("%s: JOIN %s is not modelled" % (fn, jt))
         j = spec["joins"][key]
-        em.scopes[ja] = (jt, "e")
+        evar = "e" if not wrappers else "e%d" % (len(wrappers) + 1)
+        em.scopes[ja] = (jt, evar, False)
         # ON must be <root>.<pk> = <joined>.<unique column>: at most one joined row per root row
+        # ("fk": <root>.<any column> = <joined>.<unique column>, the joined row being a field of the root row)
         ok = False
         if on[0] == "cmp" and on[1] == "Ceq" and on[2][0] == "col" and on[3][0] == "col":
             sides = []
@@ -635,10 +921,10 @@ def translate(spec, schema, gosrc, imports, q, probe_results):
                 a = em.table_of(s[1], s[2])
                 sides.append((em.scopes[a][0], s[2]))
             if sorted(sides) == sorted([(root[0], j["root_col"]), (jt, j["join_col"])]):
-                ok = schema[root[0]][j["root_col"]]["pk"] and schema[jt][j["join_col"]]["unique"]
+                ok = (schema[root[0]][j["root_col"]]["pk"] or bool(j.get("fk"))) and schema[jt][j["join_col"]]["unique"]
         if not ok:
             raise Unsupported("%s: JOIN condition on %s is not the modelled unique-key join" % (fn, jt))
-        wrappers.append(j["field"])
+        wrappers.append((j["field"], evar))
     body_coq = em.cond(where) if where is not None else "(Some true)"
     names = [s[0] for s in em.sym]
     # stable parameter order: as the Go function declares them
@@ -647,13 +933,20 @@ def translate(spec, schema, gosrc, imports, q, probe_results):
         for s in em.sym:
             if re.search(r'\b%s\b' % re.escape(pn), s[1]) and s not in order:
                 order.append(s)
-    sig = " ".join("(%s : N)" % s[0] for s in order)
+    sig = " ".join("(%s : %s)" % (s[0], "Z" if s[2] in SIGNED_KINDS else "N") for s in order)
+    # whole-table parameters in the order of the spec's table list, whatever the order of the JOINs
+    tsig = "".join(" (T_%s : list %s)" % (t, tabs[t]["row"]) for t in tabs if t in em.tables)
     rowty = tabs[root[0]]["row"]
-    text = "(* %s: %s\n   bound: %s *)\n" % (fn, " ".join(sql.split()), ", ".join(args) or "-")
+    text = "(* %s: %s\n   bound: %s" % (fn, sql_comment(sql) if (notes or st["kind"] != "select") else " ".join(sql.split()), ", ".join(args) or "-")
+    for n in notes:
+        text += "\n   %s" % n
+    text += " *)\n"
     inner = "sql_true %s" % body_coq
-    for f in wrappers:
-        inner = "match %s c with None => false | Some e => %s end" % (f, inner)
-    text += "Definition %s (c : %s) %s : bool :=\n  %s.\n" % (q["name"], rowty, sig, inner)
+    for var, on_coq, tp in reversed(lefts):
+        inner = "existsb (fun %s => %s) (sql_left_join (fun t => sql_true %s) %s)" % (var, inner, on_coq, tp)
+    for f, evar in reversed(wrappers):
+        inner = "match %s c with None => false | Some %s => %s end" % (f, evar, inner)
+    text += "Definition %s (c : %s)%s %s : bool :=\n  %s.\n" % (q["name"], rowty, tsig, sig, inner)
     chk = " && ".join("u64_bindable %s" % s[0] for s in order if s[2] in ("uint64", "uint")) or "true"
     text += "Definition %s_bindable %s : bool := %s.\n" % (q["name"], sig, chk)
     return text, em.cols_used, [s[0] for s in order]
@@ -703,7 +996,7 @@ def main():
             imports.update(go_imports(srcs[path]))
             params, body = go_function(srcs[path], q["fn"])
             ps = [(n, t) for n, t in go_params(params) if not re.search(r'\*?\btxn\b', t)]
-            sql, args = query_call(body, q["fn"])
+            sql, args = query_call(body, q["fn"], q.get("call"))
             q["_params"], q["_body"], q["_sql"], q["_args"] = ps, body, sql, args
             for i, a in enumerate(args):
                 items.append(("%s#%d" % (q["fn"], i), ps, a))
@@ -714,13 +1007,13 @@ def main():
         for key, st in spec.get("status_columns", {}).items():
             for alias, path in st.get("imports", {}).items():
                 imports[alias] = (None, path)
-        pr = probe_go(items, consts, imports)
+        pr = probe_go(items, consts, imports, spec.get("probe_package"))
 
         out = ["(* GENERATED by tools/sqlgen/sqlgen.py from the current source of the repository —",
                "   do not edit; regenerated at the start of every check run (props \"gen\" entry).",
                "   spec: %s *)" % os.path.relpath(sys.argv[1], VERIF),
                "From HostdBase Require Import Base.",
-               "From %s Require Import Rows SqlSem." % spec["coq_logical"],
+               "From %s Require Import %s." % (spec["coq_logical"], " ".join(spec.get("require", ["Rows", "SqlSem"]))),
                ""]
         # stored representation of the status constants (what database/sql binds for the Go constants)
         for key, st in spec.get("status_columns", {}).items():
@@ -750,6 +1043,13 @@ def main():
             defs.append(text)
             cols |= used
             sigs[q["name"]] = names
+        # "columns": accessors to emit whether or not a statement uses them (keeps the vocabulary of the
+        # generated file stable under edits of the statements)
+        for table, t in spec["tables"].items():
+            for col in t.get("columns", []):
+                if col not in schema[table]:
+                    raise Unsupported("table %s has no column %s" % (table, col))
+                cols.add((table, col))
         for table, col in sorted(cols):
             out.append(accessor(spec, schema, table, col))
         out.append("")
@@ -759,7 +1059,8 @@ def main():
         die(str(e))
     except (OSError, ValueError, KeyError, IndexError) as e:
         die("%s: %s" % (type(e).__name__, e))
-    dst = os.path.join(VERIF, spec["out"])
+    # VERIF_SQLGEN_ROOT: write below another root (selftest's private copy of the Coq groups)
+    dst = os.path.join(os.environ.get("VERIF_SQLGEN_ROOT", VERIF), spec["out"])
     os.makedirs(os.path.dirname(dst), exist_ok=True)
     old = open(dst).read() if os.path.exists(dst) else None
     if old != text:
